@@ -753,6 +753,7 @@ def _one_move(out, c, env, buf, obs, leg, refused):
         _viol(out, 'C18', clause, cc, direction=leg, hot_slower=hot_slower, **kw)
     h0, c0 = hot.current_capacity, cold.current_capacity
     lists0 = (list(hot.observations['stored']), list(cold.observations['stored']))
+    left0 = getattr(buf, '_data_left_to_transfer', None)     # amount Buffer.run believes in flight
     gen_ = buf.move_hot_to_cold(0) if leg == 'h2c' else buf.move_cold_to_hot(0)
     proc = env.process(gen_)
     steps = 0
@@ -794,6 +795,9 @@ def _one_move(out, c, env, buf, obs, leg, refused):
         if (h1, c1) != (h0, c0) or lists1 != lists0 or hot.observations['transfer'] is not None \
                 or cold.observations['transfer'] is not None or steps:
             V('refused_move_changed_state', before=[h0, c0], after=[h1, c1], steps=steps)
+        left1 = getattr(buf, '_data_left_to_transfer', None)
+        if left0 is not None and left1 != left0:
+            V('refused_move_changed_state', kind='data_left_to_transfer', before=left0, after=left1)
         return
     _bump(out, 'c18_moves')
     exp_steps = int(math.ceil(size / rate))
